@@ -585,9 +585,10 @@ theorem boostStage_attached (rows out : List VRow) (h : boostStage true true row
 
 /-- `boostRow` of a paired row with finite frequencies is the TumorBoost formula on that row -/
 theorem boostRow_formula (r : VRow) (g : Geno) (t n : Rat) (hn : r.n = some g)
-    (ht : r.t.altFreq = .fin t) (hg : g.altFreq = .fin n) :
+    (ht : r.t.altFreq = .fin t) (hg : g.altFreq = .fin n) (h1 : t ≤ 1) :
     boostRow r = ofOpt (tumorBoost t n) := by
-  simp [boostRow, hn, ht, hg, Freq.toOpt]
+  have : ¬ (n = 1 ∧ t > 1) := fun h => absurd h.2 (not_lt.mpr h1)
+  simp [boostRow, hn, ht, hg, Freq.toOpt, this]
 
 /-! ## sample choice -/
 
